@@ -5,6 +5,7 @@
 import IocProofs.Lemmas.M2Inv
 import IocProofs.Lemmas.M2Step
 import IocProofs.Lemmas.SemCreate
+import IocProofs.Lemmas.SemInject
 namespace Ioc.M2
 open Ioc Ioc.M2
 
@@ -150,5 +151,114 @@ theorem step_finish_is_code (sc : Scen) (wf : WF sc) (st : St) (hi : Inv sc st) 
               rw [this] at he; rw [he] at hr; cases hr
           simp [hr, obj_eta _ _ hwn]
 
+
+
+/-! ### the Inject step -/
+
+section inject
+open Ioc.M2.Lc
+
+theorem step_inject (sc : Scen) (st : St) (f : Frame) (rest : List Frame) (hrun : st.status = .running)
+    (hst : st.stack = f :: rest) (hp : f.p < (pts sc f.name).length)
+    (hd : ¬ f.d < ((pts sc f.name)[f.p]).cands.length) :
+    step sc st =
+      (let pt := (pts sc f.name)[f.p]
+       if pt.cands.isEmpty then { st with stack := advance f :: rest }
+       else if (metasOf f).isEmpty then
+         (if pt.required then failAt st f.name else { st with stack := advance f :: rest })
+       else if (metasOf f).any (fun o => pt.incompat.contains o.name) then
+         (if pt.required then failAt st f.name else { st with stack := advance f :: rest })
+       else { st with fields := upd2 st.fields f.name f.p (if pt.slice then metasOf f else (metasOf f).take 1),
+                      stack := advance f :: rest }) := by
+  unfold step
+  simp only [hrun, hst]
+  rw [dif_pos hp, dif_neg hd]
+  rfl
+
+/-- what Inject is asked in machine state: the metas are ids `ids` standing for the collected objects `f.acc` -/
+def injCtxOf (pt : Point) (holder : Nat) (obj : Nat → Obj) : Sem.InjCtx :=
+  { isComponent := true, required := pt.required, slice := pt.slice,
+    isSelf := fun i => (obj i).name == holder,
+    assignable := fun i => !(pt.incompat.contains (obj i).name) }
+
+theorem filter_map_obj (obj : Nat → Obj) (holder : Nat) (ids : List Nat) :
+    (ids.filter (fun m => !((obj m).name == holder))).map obj = (ids.map obj).filter (fun o => o.name != holder) := by
+  induction ids with
+  | nil => rfl
+  | cons a t ih =>
+    simp only [List.filter_cons, List.map_cons]
+    cases h : (obj a).name == holder <;> simp [bne, h, ih]
+
+theorem any_map_obj (obj : Nat → Obj) (inc : List Nat) (l : List Nat) :
+    (l.any fun m => !(!(inc.contains (obj m).name))) = (l.map obj).any (fun o => inc.contains o.name) := by
+  induction l with
+  | nil => rfl
+  | cons a t ih => simp [List.any_cons, List.any_map, Function.comp_def]
+
+/-- the decision after the self filter, on an abstract outcome type -/
+theorem inject_core {α : Type} (pt : Point) (holder : Nat) (obj : Nat → Obj) (L : List Nat) (A B : α) (Wf : List Obj → α) :
+    (if (L.map obj).isEmpty then (if pt.required then A else B)
+     else if (L.map obj).any (fun o => pt.incompat.contains o.name) then (if pt.required then A else B)
+     else Wf (if pt.slice then L.map obj else (L.map obj).take 1)) =
+    (if (Sem.injectTail (injCtxOf pt holder obj) L).1 then A
+     else match (Sem.injectTail (injCtxOf pt holder obj) L).2.injects with
+       | none => B
+       | some ms => Wf (if pt.slice then ms.map obj else (ms.map obj).take 1)) := by
+  unfold Sem.injectTail
+  simp only [injCtxOf]
+  cases L with
+  | nil =>
+    by_cases hr : pt.required = true
+    · simp [hr]
+    · simp [hr]
+  | cons m rest' =>
+    simp only [List.map_cons, List.isEmpty_cons, Bool.false_eq_true, if_false]
+    have hany := any_map_obj obj pt.incompat (m :: rest')
+    simp only [List.map_cons] at hany
+    simp only [hany]
+    cases ha : (obj m :: List.map obj rest').any (fun o => pt.incompat.contains o.name) with
+    | true =>
+      by_cases hr : pt.required = true
+      · simp [hr]
+      · simp [hr]
+    | false =>
+      simp only [Bool.false_eq_true, if_false]
+      by_cases hs : pt.slice = true
+      · simp [hs]
+      · simp [hs]
+
+/-- THE INJECT STEP OF THE MACHINE IS THE REGENERATED Property.Inject: when all candidates of the current point are
+    collected (and the point has candidates), `step` fails / skips / writes exactly as `Sem.injectModel` — proved equal to
+    the regenerated program (inject_sem) — says on the answers the machine state gives. -/
+theorem step_inject_is_code (sc : Scen) (st : St) (f : Frame) (rest : List Frame) (hrun : st.status = .running)
+    (hst : st.stack = f :: rest) (hp : f.p < (pts sc f.name).length)
+    (hd : ¬ f.d < ((pts sc f.name)[f.p]).cands.length) (hne : ((pts sc f.name)[f.p]).cands ≠ [])
+    (ids : List Nat) (obj : Nat → Obj) (hacc : ids.map obj = f.acc) (hids : ids ≠ []) :
+    step sc st =
+      (if (Sem.injectModel (injCtxOf ((pts sc f.name)[f.p]) f.name obj) ids).1 then failAt st f.name
+       else match (Sem.injectModel (injCtxOf ((pts sc f.name)[f.p]) f.name obj) ids).2.injects with
+         | none => { st with stack := advance f :: rest }
+         | some ms => { st with
+             fields := upd2 st.fields f.name f.p
+               (if ((pts sc f.name)[f.p]).slice then ms.map obj else (ms.map obj).take 1),
+             stack := advance f :: rest }) := by
+  rw [step_inject sc st f rest hrun hst hp hd]
+  have hc : ((pts sc f.name)[f.p]).cands.isEmpty = false := by
+    cases h : ((pts sc f.name)[f.p]).cands with
+    | nil => exact absurd h hne
+    | cons a t => rfl
+  have hie : ids.isEmpty = false := by cases ids <;> simp_all
+  have hmetas : metasOf f = (ids.filter (fun m => !((obj m).name == f.name))).map obj := by
+    rw [filter_map_obj, hacc]; rfl
+  have hmodel : Sem.injectModel (injCtxOf ((pts sc f.name)[f.p]) f.name obj) ids =
+      Sem.injectTail (injCtxOf ((pts sc f.name)[f.p]) f.name obj) (ids.filter (fun m => !((obj m).name == f.name))) := by
+    simp [Sem.injectModel, injCtxOf, hie]
+  simp only [hc, Bool.false_eq_true, if_false]
+  rw [hmodel, hmetas]
+  exact inject_core ((pts sc f.name)[f.p]) f.name obj _ _ _
+    (fun v => { st with fields := upd2 st.fields f.name f.p v, stack := advance f :: rest })
+
+
+end inject
 
 end Ioc.M2
